@@ -65,10 +65,13 @@ def check_concrete(model, rep, m):
     frozen flag is `some worm gear is flagged self-locking`; a motor driving nothing and a non-motor are rejected"""
     import itertools
     from sa.sx import Tv
+    import os
+    deep = os.environ.get('VERIF_TIER') == 'thorough'
+    top = 8 if deep else 6
     walk_bad = tuple_bad = flag_bad = None
     n_cfg = 0
     try:
-        for n in range(2, 6):
+        for n in range(2, top):
             for combo in itertools.product(('S', 'WT', 'WF'), repeat=n - 1):
                 for backlinks in ((True, False) if n <= 4 else (True,)):
                     n_cfg += 1
@@ -107,7 +110,7 @@ def check_concrete(model, rep, m):
         rep.cannot('C20.walk', 'Powertrain.__init__', str(e), m.loc)
         return
     rep.inspect(n_cfg)
-    d = f'{n_cfg} concrete chains'
+    d = f'{n_cfg} concrete chains of 2..{top - 1} elements'
     rep.decide(walk_bad is None, 'C20.walk', 'Powertrain.__init__:chain-walk', walk_bad or '', loc=m.loc, detail=d)
     rep.decide(tuple_bad is None, 'C20.walk', 'Powertrain.__init__:stored-tuple', tuple_bad or '', loc=m.loc, detail=d)
     rep.decide(flag_bad is None, 'C20.locking', 'Powertrain.__init__:flag-value', flag_bad or '', loc=m.loc, detail=d)
@@ -118,7 +121,7 @@ def check_concrete(model, rep, m):
     bad = None
     n_pat = 0
     try:
-        for n in range(2, 6):
+        for n in range(2, 7 if deep else 6):
             for pat in _partitions(n):
                 n_pat += 1
                 sx, outs, _ = concrete_init(model, m, ['DCMotor'] + ['SpurGear'] * (n - 1), names=[f'name{k}' for k in pat])
@@ -138,7 +141,7 @@ def check_concrete(model, rep, m):
         return
     rep.inspect(n_pat)
     rep.decide(bad is None, 'C20.rejects', 'Powertrain.__init__[duplicate names]', bad or '', loc=m.loc,
-               detail=f'{n_pat} name patterns on chains of 2..5 elements')
+               detail=f'{n_pat} name patterns on chains of 2..{6 if deep else 5} elements')
 
 
 def _elements_iter(node):
